@@ -5,6 +5,7 @@ package packetdump
 
 import (
 	"github.com/pion/interceptor"
+	"github.com/pion/rtcp"
 )
 
 // ReceiverInterceptorFactory is a interceptor.Factory for a ReceiverInterceptor.
@@ -79,7 +80,11 @@ func (r *ReceiverInterceptor) BindRTCPReader(reader interceptor.RTCPReader) inte
 			if attr == nil {
 				attr = make(interceptor.Attributes)
 			}
-			pkts, err := attr.GetRTCPPackets(bytes[:i])
+			// The packets are dumped asynchronously, after this Read has returned, and unmarshalled
+			// RTCP packets can alias the buffer they were parsed from (RawPacket, ApplicationDefined.Data,
+			// ProfileExtensions). Hand the logger packets parsed from a private copy, so that the caller
+			// is free to reuse its read buffer.
+			pkts, err := rtcp.Unmarshal(append([]byte(nil), bytes[:i]...))
 			if err != nil {
 				return 0, nil, err
 			}
